@@ -121,7 +121,7 @@ PROPS = {
     },
     "C12": {
         "lean": ["FsnVerif.Props.C12"],
-        "lean_support": ["FsnVerif.Proofs.InvLemmas", "FsnVerif.Proofs.ALLemmas", "FsnVerif.Model.Inotify"],
+        "lean_support": ["FsnVerif.Proofs.InvLemmas", "FsnVerif.Proofs.ALLemmas", "FsnVerif.Model.Inotify", "FsnVerif.Model.Kernel", "FsnVerif.Proofs.KernelLemmas", "FsnVerif.Proofs.KernelInv"],
         "stages": [{"name": "inject", "cmd": "inject", "what": "C12", "sessions": True},
                    {"name": "live", "cmd": "live", "what": "C12", "sessions": True}],
         "rule": INJECT_RULE + LIVE_RULE,
